@@ -312,7 +312,11 @@ func genAuth(prop string) func(rng *simkit.Rand, tier string, idx int) *simkit.C
 		c.Cfg["yield_den"] = []int64{0, 64, 8}[rng.Intn(3)]
 		kinds := []string{"proxy", "proxy", "tcp", "admin", "admin", "listen", "listen", "expiry"}
 		if prop == "C16" {
-			kinds = []string{"expiry", "expiry", "listen", "proxy"}
+			kinds = []string{"expiry", "expiry", "expiry-edge", "expiry-edge", "expiry-edge", "listen", "proxy"}
+			// execution takes time: only then can an instant (a token's expiry)
+			// pass between two statements of the server's handler
+			c.Cfg["stall_den"] = []int64{0, 40, 150, 600}[rng.Intn(4)]
+			c.Cfg["stall_max_us"] = []int64{100, 1000, 3000}[rng.Intn(3)]
 		}
 		n := rng.Range(6, 30)
 		for i := 0; i < n; i++ {
@@ -405,6 +409,8 @@ func execAuth(run *simkit.Run) {
 			w.authListen(rr)
 		case "expiry":
 			w.authExpiry(rr)
+		case "expiry-edge":
+			w.authExpiryEdge(rr)
 		}
 	}
 	if !run.Stop() && r.Intn(2) == 0 {
@@ -692,7 +698,7 @@ func (w *authWorld) authListen(r *simkit.Rand) {
 		desc = "no authentication configured"
 	}
 	a, err := w.listenAuth(ep, "http", 0, tok, tenant)
-	synctest.Wait()
+	w.settle()
 	after := w.nodes[0].srv.ClusterState().LocalNode().Endpoints[ep]
 	tag := fmt.Sprintf("listen on %q: %s", ep, desc)
 	run.Logf("%s -> err=%v registered %d->%d", tag, err, before, after)
@@ -722,11 +728,21 @@ func (w *authWorld) authListen(r *simkit.Rand) {
 	if a != nil {
 		a.shutdown()
 		time.Sleep(200 * time.Millisecond)
-		synctest.Wait()
+		w.settle()
 		if got := w.nodes[0].srv.ClusterState().LocalNode().Endpoints[ep]; got != before {
 			run.Fail("C16.while", "closed-but-still-registered", "%s: the listener was shut down but the endpoint count is %d (was %d before it connected)", tag, got, before)
 		}
 	}
+}
+
+// settle waits until nothing moves any more. With the execution-time fault on
+// (stall_den), a goroutine that is "about to" finish a registration may be
+// asleep for a few milliseconds, which synctest.Wait alone takes for rest.
+func (w *authWorld) settle() {
+	if w.run.Case.Cfg["stall_den"] > 0 {
+		time.Sleep(300 * time.Millisecond)
+	}
+	synctest.Wait()
 }
 
 // authExpiry: a connection authenticated with an expiring token is closed by
@@ -750,17 +766,17 @@ func (w *authWorld) authExpiry(r *simkit.Rand) {
 		return
 	}
 	defer a.shutdown()
-	count := func() int { synctest.Wait(); return w.nodes[0].srv.ClusterState().LocalNode().Endpoints[ep] }
+	count := func() int { w.settle(); return w.nodes[0].srv.ClusterState().LocalNode().Endpoints[ep] }
 	if count() != 1 {
 		run.Fail("C16.while", "connected-but-not-registered", "listener with an expiring token is connected but not registered")
 		return
 	}
-	time.Sleep(time.Until(exp) - 200*time.Millisecond)
-	if count() != 1 {
+	time.Sleep(time.Until(exp) - 600*time.Millisecond)
+	if n := count(); n != 1 && time.Now().Before(exp) {
 		run.Fail("C16.expiry", "closed-before-expiry", "the upstream authenticated with a token expiring at +%v was deregistered %v before the expiry", ttl, time.Until(exp))
 		return
 	}
-	time.Sleep(700 * time.Millisecond)
+	time.Sleep(time.Until(exp) + 500*time.Millisecond)
 	n := count()
 	if pa.noDisconnect {
 		if n != 1 {
@@ -773,6 +789,50 @@ func (w *authWorld) authExpiry(r *simkit.Rand) {
 		run.Fail("C16.expiry", "not-closed-at-expiry", "500ms after the token expiry (+%v) the upstream is still registered", ttl)
 	}
 	run.Probe("c16.expiry_checked")
+}
+
+// authExpiryEdge: the listener connects a hair before its token expires. It is
+// either refused (the expiry had been reached when the server looked) or
+// registered and then closed at the expiry like any other - also when the
+// expiry passes while the server is still setting the connection up.
+func (w *authWorld) authExpiryEdge(r *simkit.Rand) {
+	run := w.run
+	pa := w.upstream
+	if !pa.enabled || len(w.tenants) > 0 {
+		return
+	}
+	ep := "x2"
+	t := drawValid(pa)
+	now := time.Now()
+	exp := time.Unix(now.Unix()+2, 0) // JWT expiry has one-second resolution
+	t.exp = exp.Sub(now)
+	tok := t.sign(now)
+	hair := time.Duration(r.Range(10, 3000)) * time.Microsecond
+	if r.Intn(4) == 0 {
+		hair = time.Duration(r.Range(1, 50)) * time.Millisecond
+	}
+	time.Sleep(time.Until(exp) - hair)
+	before := w.nodes[0].srv.ClusterState().LocalNode().Endpoints[ep]
+	a, err := w.listenAuth(ep, "http", 0, tok, "")
+	if err != nil {
+		if time.Now().Before(exp) {
+			run.Fail("C09.allow", "valid-token-refused", "listen %v before the token's expiry was refused before the expiry: %v", hair, err)
+		}
+		run.Probe("c16.expiry_edge_refused")
+		return
+	}
+	defer a.shutdown()
+	run.Probe("c16.expiry_edge_accepted")
+	time.Sleep(time.Until(exp) + 500*time.Millisecond)
+	w.settle()
+	n := w.nodes[0].srv.ClusterState().LocalNode().Endpoints[ep] - before
+	switch {
+	case pa.noDisconnect && n != 1:
+		run.Fail("C16.expiry", "closed-although-disabled", "disconnect-on-expiry is disabled but the upstream that connected %v before its token's expiry was deregistered", hair)
+	case !pa.noDisconnect && n != 0:
+		run.Fail("C16.expiry", "not-closed-at-expiry", "an upstream that connected %v before its token's expiry is still registered 500ms after the expiry", hair)
+	}
+	run.Probe("c16.expiry_edge_checked")
 }
 
 // authShutdown: a node with upstreams authenticated by tokens that carry an
@@ -790,7 +850,7 @@ func (w *authWorld) authShutdown(r *simkit.Rand) {
 		run.Fail("C09.allow", "valid-token-refused", "listen with a token expiring in %v: %v", t.exp, err)
 		return
 	}
-	synctest.Wait()
+	w.settle()
 	run.Logf("%s graceful shutdown with an upstream authenticated by an expiring token", n.id)
 	n.alive = false
 	t0 := time.Now()
@@ -802,7 +862,7 @@ func (w *authWorld) authShutdown(r *simkit.Rand) {
 	}()
 	<-done
 	n.stopped = true
-	synctest.Wait()
+	w.settle()
 	if took := time.Since(t0); took > n.conf.GracePeriod+500*time.Millisecond {
 		run.Fail("C18.grace", "shutdown-overran-grace-period", "%s took %v to shut down, grace period %v", n.id, took, n.conf.GracePeriod)
 	}
